@@ -150,7 +150,7 @@ thread_local! {
 /// Every occurrence is still counted in the distribution.
 fn fail(rep: &mut Report, class: &str, what: String, input: Value) {
     let fe = input.get("fe").and_then(|x| x.as_str()).unwrap_or("plain").to_string();
-    let key = format!("{class}|{fe}|{}", what.contains("[et <whitespace> al.]"));
+    let key = format!("{class}|{fe}|{}|{}", what.contains("[et <whitespace> al.]"), what.contains("[condensed across a gap]"));
     let n = FAIL_SEEN.with(|m| {
         let mut m = m.borrow_mut();
         let e = m.entry(key).or_insert(0);
@@ -509,9 +509,17 @@ fn case_frontend(rep: &mut Report, fe: &str, text: &str, dict: &Arc<FstDictionar
     for (c, m) in general_failures(&ts, src.len()) {
         fail(rep, c, format!("[{fe}] {m}"), inp.clone());
     }
+    // the raw tokens of the front-end's parser, to recognise finding F28: Document::parse condensed tokens that
+    // are neighbours in the vector but NOT in the text (the front-end left a gap between them)
+    let raw: Vec<Token> = guarded(|| frontends::make_parser(fe, &src, dict).parse(&src)).unwrap_or_default();
+    let across_gap = |sp: Span| -> bool {
+        let inside: Vec<&Token> = raw.iter().filter(|r| r.span.start < r.span.end && sp.start <= r.span.start && r.span.end <= sp.end).collect();
+        inside.windows(2).any(|w| w[0].span.end < w[1].span.start)
+    };
     for i in 0..ts.len() {
         for (c, m) in shape_failures(i, &ts, &src, fe == "plain") {
-            fail(rep, c, format!("[{fe}] {m}"), inp.clone());
+            let marker = if across_gap(ts[i].span) { " [condensed across a gap]" } else { "" };
+            fail(rep, c, format!("[{fe}] {m}{marker}"), inp.clone());
         }
     }
     if ts.iter().any(|t| t.span.start == t.span.end) {
